@@ -1,7 +1,8 @@
+import PV.Model.Algo
 /-
   C18 — executable model of `pymbolic/geometric_algebra/__init__.py`.
 
-  Import-free (core Lean only).  Every definition mirrors the Python function named in its
+  Import-free (core Lean only; `PV.Model.Algo` supplies `integer_power`).  Every definition mirrors the Python function named in its
   docstring, loops included; the clean mathematical characterisations live in `PV/Proofs/GA.lean`.
 
   Blades are `Nat` bitmaps (bit `i` set ⇔ basis vector `e_i` is a factor), exactly as in the code,
@@ -164,25 +165,52 @@ end Weights
 /-! ## multivectors
 
 `MultiVector.data` is a Python `dict` from bitmaps to coefficients; a `dict` keeps insertion order,
-so it is modelled as an association list in insertion order with distinct keys.  Coefficients are
-integers here (`is_zero(x)` is `not bool(x)`, i.e. `x == 0`). -/
+so it is modelled as an association list in insertion order with distinct keys.
 
-abbrev MV := List (Nat × Int)
+The coefficient type `R` is a parameter: the code is "not picky about what data is used as
+coefficients" and only uses `+`, `*`, unary `-`, the literals `0`, `1` and the zero test
+`pymbolic.primitives.is_zero` on them.  Every definition that prunes takes the zero test as an
+explicit argument `z : R → Bool` (`…Z` names); the plain names instantiate it with `isZeroD`
+(`x == 0` decides, which is what `is_zero(x) = not bool(x)` is for ints and `Fraction`s).
+`MV = MVOf Int` is the instance the original driver operations run; `MVOf Rat` is the instance
+for `Fraction` coefficients. -/
+
+abbrev MVOf (R : Type) := List (Nat × R)
+
+abbrev MV := MVOf Int
+
+section Dict
+variable {R : Type}
 
 /-- `d.get(k)` -/
-def dictGet : MV → Nat → Option Int
+def dictGet : MVOf R → Nat → Option R
   | [], _ => none
   | (k', v) :: d, k => if k' = k then some v else dictGet d k
 
 /-- `d[k] = v` (an existing key keeps its position, a new key goes to the end) -/
-def dictSet : MV → Nat → Int → MV
+def dictSet : MVOf R → Nat → R → MVOf R
   | [], k, v => [(k, v)]
   | (k', v') :: d, k, v => if k' = k then (k', v) :: d else (k', v') :: dictSet d k v
 
 /-- `del d[k]` -/
-def dictDel : MV → Nat → MV
+def dictDel : MVOf R → Nat → MVOf R
   | [], _ => []
   | (k', v') :: d, k => if k' = k then d else (k', v') :: dictDel d k
+
+end Dict
+
+/-- `is_zero(x)` for exact numbers (`not bool(x)`, i.e. `x == 0`) -/
+def isZeroD {R : Type} [OfNat R 0] [DecidableEq R] (x : R) : Bool := decide (x = 0)
+
+section MVModel
+variable {R : Type} [Add R] [Mul R] [Neg R] [OfNat R 0] [OfNat R 1]
+
+/-- `canonical_reordering_sign(a_bits, b_bits)` as a coefficient (`±1`) -/
+def reorderSignR (a b : Nat) : R :=
+  if reorderSignExp a b &&& 1 ≠ 0 then -1 else 1
+
+/-- a Python int sign (`1`, `-1`; `0` for the collapsed error case) as a coefficient -/
+def signToR (s : Int) : R := if s = 1 then 1 else if s = -1 then -1 else 0
 
 /-- the accumulate-and-prune step shared by `MultiVector.__init__` and `_generic_product`:
     ```
@@ -190,44 +218,40 @@ def dictDel : MV → Nat → MV
     if is_zero(new_coeff): del new_data[bits]
     else: new_data[bits] = new_coeff
     ``` -/
-def dictAccum (d : MV) (bits : Nat) (coeff : Int) : MV :=
+def dictAccumZ (z : R → Bool) (d : MVOf R) (bits : Nat) (coeff : R) : MVOf R :=
   let newCoeff := (dictGet d bits).getD 0 + coeff
-  if newCoeff = 0 then dictDel d bits else dictSet d bits newCoeff
+  if z newCoeff then dictDel d bits else dictSet d bits newCoeff
 
 /-- `MultiVector(x, space)` for a non-dict, non-array `x`:  `data = {} if is_zero(x) else {0: x}`
     (a scalar zero is stored like every arithmetic result: without a coefficient). -/
-def ofScalar (x : Int) : MV := if x = 0 then [] else [(0, x)]
+def ofScalarZ (z : R → Bool) (x : R) : MVOf R := if z x then [] else [(0, x)]
 
 /-- `MultiVector({bits: coeff, …}, space)` with integer keys: the dict is stored as given
     (no normalisation, no zero pruning). -/
-def ofBitsDict (d : MV) : MV := d
+def ofBitsDict (d : MVOf R) : MVOf R := d
 
 /-- `MultiVector({(i, j, …): coeff, …}, space)` with tuple keys: each key is normalised with
     `bits_and_sign`, coefficients are accumulated and pruned.  (For an empty dict the Python
     condition `data and …` is false and the dict is stored as is — also `[]`.) -/
-def ofTuplesDict (d : List (List Nat × Int)) : MV :=
+def ofTuplesDictZ (z : R → Bool) (d : List (List Nat × R)) : MVOf R :=
   d.foldl (fun acc (idx, coeff) =>
     let (bits, sign) := bitsAndSign idx
-    dictAccum acc bits (sign * coeff)) []
-
-/-- `MultiVector(numpy_vector)`:  `{(i,): x_i}` -/
-def ofVector (xs : List Int) : MV :=
-  ofTuplesDict (xs.zipIdx.map fun (x, i) => ([i], x))
+    dictAccumZ z acc bits (signToR sign * coeff)) []
 
 /-- `MultiVector.__neg__` -/
-def mvNeg (a : MV) : MV := a.map fun (bits, c) => (bits, -c)
+def mvNeg (a : MVOf R) : MVOf R := a.map fun (bits, c) => (bits, -c)
 
 /-- `MultiVector.__add__`.  Python iterates over `set(self.data) | set(other.data)`, whose order
     is an implementation detail of CPython sets; the model takes the keys of `a` in order followed
     by the new keys of `b`.  Only the order of the result depends on this choice. -/
-def mvAdd (a b : MV) : MV :=
+def mvAddZ (z : R → Bool) (a b : MVOf R) : MVOf R :=
   let keys := a.map (·.1) ++ (b.map (·.1)).filter fun k => (dictGet a k).isNone
   keys.foldl (fun acc bits =>
     let newCoeff := (dictGet a bits).getD 0 + (dictGet b bits).getD 0
-    if newCoeff = 0 then acc else dictSet acc bits newCoeff) []
+    if z newCoeff then acc else dictSet acc bits newCoeff) []
 
 /-- `MultiVector.__sub__`: `self + (-other)` -/
-def mvSub (a b : MV) : MV := mvAdd a (mvNeg b)
+def mvSubZ (z : R → Bool) (a b : MVOf R) : MVOf R := mvAddZ z a (mvNeg b)
 
 /-- `MultiVector._generic_product(other, product_class)` for an orthogonal space;
     `w = product_class.orthogonal_blade_product_weight(·, ·, space)`.
@@ -240,19 +264,13 @@ def mvSub (a b : MV) : MV := mvAdd a (mvNeg b)
                 coeff = weight * canonical_reordering_sign(sbits, obits) * scoeff * ocoeff
                 (accumulate and prune)
     ``` -/
-def genericProduct (w : Nat → Nat → Int) (a b : MV) : MV :=
+def genericProductZ (z : R → Bool) (w : Nat → Nat → R) (a b : MVOf R) : MVOf R :=
   a.foldl (fun acc (sbits, scoeff) =>
     b.foldl (fun acc (obits, ocoeff) =>
       let newBits := sbits ^^^ obits
       let weight := w sbits obits
-      if weight = 0 then acc
-      else dictAccum acc newBits (weight * reorderSign sbits obits * scoeff * ocoeff)) acc) []
-
-def mvMul (g : Nat → Int) : MV → MV → MV := genericProduct (wGeometric g)
-def mvOuter (g : Nat → Int) : MV → MV → MV := genericProduct (wOuter g)
-def mvInner (g : Nat → Int) : MV → MV → MV := genericProduct (wInner g)
-def mvLeftContraction (g : Nat → Int) : MV → MV → MV := genericProduct (wLeftContraction g)
-def mvRightContraction (g : Nat → Int) : MV → MV → MV := genericProduct (wRightContraction g)
+      if z weight then acc
+      else dictAccumZ z acc newBits (weight * reorderSignR sbits obits * scoeff * ocoeff)) acc) []
 
 /-- the blade grade used throughout: `bit_count(bits)` -/
 def gradeOf (bits : Nat) : Nat := bitCount bits
@@ -268,67 +286,115 @@ def involSign (bits : Nat) : Int :=
   if bitCount bits % 2 = 0 then 1 else -1
 
 /-- `MultiVector.rev` -/
-def rev (a : MV) : MV :=
+def rev (a : MVOf R) : MVOf R :=
   a.map fun (bits, coeff) =>
     let grade := bitCount bits
     if grade * (grade - 1) / 2 % 2 = 0 then (bits, coeff) else (bits, -coeff)
 
 /-- `MultiVector.invol` -/
-def invol (a : MV) : MV :=
+def invol (a : MVOf R) : MVOf R :=
   a.map fun (bits, coeff) =>
     if bitCount bits % 2 = 0 then (bits, coeff) else (bits, -coeff)
 
 /-- `MultiVector.project(r)` -/
-def project (a : MV) (r : Nat) : MV := a.filter fun (bits, _) => bitCount bits = r
+def project (a : MVOf R) (r : Nat) : MVOf R := a.filter fun (bits, _) => bitCount bits = r
 
 /-- `MultiVector.odd` -/
-def odd (a : MV) : MV := a.filter fun (bits, _) => bitCount bits % 2 ≠ 0
+def odd (a : MVOf R) : MVOf R := a.filter fun (bits, _) => bitCount bits % 2 ≠ 0
 
 /-- `MultiVector.even` -/
-def even (a : MV) : MV := a.filter fun (bits, _) => bitCount bits % 2 = 0
+def even (a : MVOf R) : MVOf R := a.filter fun (bits, _) => bitCount bits % 2 = 0
 
-/-- `MultiVector.as_scalar`; `none` = `ValueError("multivector is not a scalar")` -/
-def asScalar (a : MV) : Option Int :=
+/-- `MultiVector.as_scalar`; `none` = `ValueError("multivector is not a scalar")`:
+    ```
+    result = 0
+    for bits, coeff in self.data.items():
+        if bits != 0: raise ValueError
+        result = coeff
+    ``` -/
+def asScalar (a : MVOf R) : Option R :=
   a.foldl (fun r (bits, coeff) => r.bind fun _ => if bits ≠ 0 then none else some coeff) (some 0)
 
 /-- `MultiVector.scalar_product` -/
-def scalarProduct (g : Nat → Int) (a b : MV) : Option Int :=
-  asScalar (genericProduct (wScalar g) a b)
+def scalarProductZ (z : R → Bool) (g : Nat → R) (a b : MVOf R) : Option R :=
+  asScalar (genericProductZ z (wScalar g) a b)
 
 /-- `MultiVector.norm_squared`: `self.rev().scalar_product(self)` -/
-def normSquared (g : Nat → Int) (a : MV) : Option Int := scalarProduct g (rev a) a
+def normSquaredZ (z : R → Bool) (g : Nat → R) (a : MVOf R) : Option R :=
+  scalarProductZ z g (rev a) a
 
 /-- `MultiVector.I` in a space of `dims` dimensions -/
-def pseudoscalar (dims : Nat) : MV := [(2 ^ dims - 1, 1)]
+def pseudoscalar (dims : Nat) : MVOf R := [(2 ^ dims - 1, 1)]
 
 /-- `MultiVector.dual`: `self | self.I.rev()` -/
-def dual (g : Nat → Int) (dims : Nat) (a : MV) : MV := mvInner g a (rev (pseudoscalar dims))
+def dualZ (z : R → Bool) (g : Nat → R) (dims : Nat) (a : MVOf R) : MVOf R :=
+  genericProductZ z (wInner g) a (rev (pseudoscalar dims))
 
 /-- `MultiVector.get_pure_grade`; the outer `Option` is Python's `None` -/
-def getPureGrade (a : MV) : Option Nat :=
+def getPureGrade (a : MVOf R) : Option Nat :=
   match a with
   | [] => some 0
   | (bits, _) :: rest =>
     if rest.all fun (b, _) => bitCount b = bitCount bits then some (bitCount bits) else none
 
-inductive InvResult where
+/-- `MultiVector.gen_blades()` (`grade=None`): one single-term multivector per stored item -/
+def genBlades (a : MVOf R) : List (MVOf R) := a.map fun (bits, coeff) => [(bits, coeff)]
+
+/-- `MultiVector.gen_blades(grade)` -/
+def genBladesGrade (a : MVOf R) (grade : Nat) : List (MVOf R) :=
+  (a.filter fun (bits, _) => bitCount bits = grade).map fun (bits, coeff) => [(bits, coeff)]
+
+/-- `log_table[bits]` of `as_vector` (`{2**i: i for i in range(dims)}`); `none` = `KeyError` -/
+def logTable (dims bits : Nat) : Option Nat := (List.range dims).find? fun i => 2 ^ i = bits
+
+/-- `MultiVector.as_vector()` (as the list of its entries); `none` = `ValueError`:
+    ```
+    result = [0] * dims
+    for bits, coeff in self.data.items(): result[log_table[bits]] = coeff
+    ``` -/
+def asVector (dims : Nat) (a : MVOf R) : Option (List R) :=
+  a.foldl (fun r (bits, coeff) => r.bind fun v =>
+    (logTable dims bits).map fun i => v.set i coeff) (some (List.replicate dims 0))
+
+/-- the three result types of `MultiVector.xproject` -/
+inductive XProj (R : Type) where
+  | scalar (x : R)
+  | vector (v : List R)
+  | mv (m : MVOf R)
+  | valueError
+  deriving Repr, DecidableEq
+
+/-- `MultiVector.xproject(r)` -/
+def xproject (dims : Nat) (a : MVOf R) (r : Nat) : XProj R :=
+  if r = 0 then
+    match asScalar (project a 0) with
+    | some x => .scalar x
+    | none => .valueError
+  else if r = 1 then
+    match asVector dims (project a 1) with
+    | some v => .vector v
+    | none => .valueError
+  else .mv (project a r)
+
+inductive InvResult (R : Type) where
   | zeroDivision
   | notImplemented
   | valueError
   /-- the inverse is `numer / denom` (Python divides every coefficient by `nsqr` with `/`) -/
-  | ok (numer : MV) (denom : Int)
+  | ok (numer : MVOf R) (denom : R)
   deriving Repr, DecidableEq
 
 /-- `MultiVector.inv`.  Python computes `coeff / nsqr` (true division); the model returns the
-    undivided numerator together with the denominator `nsqr`. -/
-def inv (g : Nat → Int) (dims : Nat) (a : MV) : InvResult :=
-  match normSquared g a with
+    undivided numerator together with the denominator `nsqr` (`mvInvDiv` divides); the
+    `ZeroDivisionError` of `coeff / nsqr` is the zero test on `nsqr`. -/
+def invZ (z : R → Bool) (g : Nat → R) (dims : Nat) (a : MVOf R) : InvResult R :=
+  match normSquaredZ z g a with
   | none => .valueError
   | some nsqr =>
     match a with
     | [] => .zeroDivision
     | [(bits, coeff)] =>
-      if nsqr = 0 then .zeroDivision
+      if z nsqr then .zeroDivision
       else
         let grade := bitCount bits
         let coeff := if grade * (grade - 1) / 2 % 2 ≠ 0 then -coeff else coeff
@@ -337,26 +403,98 @@ def inv (g : Nat → Int) (dims : Nat) (a : MV) : InvResult :=
       match getPureGrade a with
       | some gr =>
         if gr = 0 ∨ gr = 1 ∨ gr = dims then
-          if nsqr = 0 then .zeroDivision else .ok a nsqr
+          if z nsqr then .zeroDivision else .ok a nsqr
         else .notImplemented
       | none => .notImplemented
 
+/-- `one=MultiVector({0: 1}, self.space)` of `__pow__` -/
+def mvOne : MVOf R := [(0, 1)]
+
+/-- `MultiVector.__pow__(n)`: `integer_power(self, int(n), one=MultiVector({0: 1}))` with the
+    geometric product `mul` (`aux *= x`, `x = x * x`); `none` = the `RuntimeError` for `n < 0` -/
+def mvPowWith (mul : MVOf R → MVOf R → MVOf R) (a : MVOf R) (n : Int) : Option (MVOf R) :=
+  if n < 0 then none else some (PV.Algo.integerPower mul mvOne a n.toNat)
+
+/-- the `n`-fold product `((1 * a) * a) * … * a` (the specification of `__pow__`) -/
+def mvNPowWith (mul : MVOf R → MVOf R → MVOf R) (a : MVOf R) : Nat → MVOf R
+  | 0 => mvOne
+  | n + 1 => mul (mvNPowWith mul a n) a
+
+/-- `MultiVector.__bool__`: `bool(self.data)` -/
+def mvBool (a : MVOf R) : Bool := !a.isEmpty
+
+/-- the documented reading of `__bool__` ("has any blade with non-zero coefficient") negated -/
+def mvIsZero (a : MVOf R) : Bool := !mvBool a
+
+end MVModel
+
+/-! ### the instances with a deciding zero test (`is_zero(x)` is `x == 0`) -/
+
+section MVDec
+variable {R : Type} [Add R] [Mul R] [Neg R] [OfNat R 0] [OfNat R 1] [DecidableEq R]
+
+abbrev dictAccum (d : MVOf R) (bits : Nat) (coeff : R) : MVOf R := dictAccumZ isZeroD d bits coeff
+abbrev ofScalar (x : R) : MVOf R := ofScalarZ isZeroD x
+abbrev ofTuplesDict (d : List (List Nat × R)) : MVOf R := ofTuplesDictZ isZeroD d
+
+/-- `MultiVector(numpy_vector)`:  `{(i,): x_i}` -/
+def ofVector (xs : List R) : MVOf R :=
+  ofTuplesDict (xs.zipIdx.map fun (x, i) => ([i], x))
+
+abbrev mvAdd (a b : MVOf R) : MVOf R := mvAddZ isZeroD a b
+abbrev mvSub (a b : MVOf R) : MVOf R := mvSubZ isZeroD a b
+abbrev genericProduct (w : Nat → Nat → R) (a b : MVOf R) : MVOf R := genericProductZ isZeroD w a b
+
+abbrev mvMul (g : Nat → R) : MVOf R → MVOf R → MVOf R := genericProduct (wGeometric g)
+abbrev mvOuter (g : Nat → R) : MVOf R → MVOf R → MVOf R := genericProduct (wOuter g)
+abbrev mvInner (g : Nat → R) : MVOf R → MVOf R → MVOf R := genericProduct (wInner g)
+abbrev mvLeftContraction (g : Nat → R) : MVOf R → MVOf R → MVOf R :=
+  genericProduct (wLeftContraction g)
+abbrev mvRightContraction (g : Nat → R) : MVOf R → MVOf R → MVOf R :=
+  genericProduct (wRightContraction g)
+
+abbrev scalarProduct (g : Nat → R) (a b : MVOf R) : Option R := scalarProductZ isZeroD g a b
+abbrev normSquared (g : Nat → R) (a : MVOf R) : Option R := normSquaredZ isZeroD g a
+abbrev dual (g : Nat → R) (dims : Nat) (a : MVOf R) : MVOf R := dualZ isZeroD g dims a
+abbrev inv (g : Nat → R) (dims : Nat) (a : MVOf R) : InvResult R := invZ isZeroD g dims a
+
+/-- `MultiVector.__pow__` -/
+abbrev mvPow (g : Nat → R) (a : MVOf R) (n : Int) : Option (MVOf R) := mvPowWith (mvMul g) a n
+
+/-- the `n`-fold geometric product -/
+abbrev mvNPow (g : Nat → R) (a : MVOf R) (n : Nat) : MVOf R := mvNPowWith (mvMul g) a n
+
 /-- `dict.__eq__`: same length and every item of `a` is found in `b` with an equal value
     (insertion order is irrelevant) -/
-def dictEq (a b : MV) : Bool :=
+def dictEq (a b : MVOf R) : Bool :=
   a.length == b.length && a.all fun (k, v) => dictGet b k == some v
 
 /-- `MultiVector.__eq__` between two multivectors: `self.data == other.data` -/
-def mvEq (a b : MV) : Bool := dictEq a b
+def mvEq (a b : MVOf R) : Bool := dictEq a b
 
 /-- `MultiVector.__eq__` against a non-multivector `x`: `_cast_or_ni` wraps it as
-    `MultiVector(x)`, i.e. `{0: x}`.  NOTE: `mvEqScalar [] 0 = false`. -/
-def mvEqScalar (a : MV) (x : Int) : Bool := mvEq a (ofScalar x)
+    `MultiVector(x)`, i.e. `{}` for a zero and `{0: x}` otherwise. -/
+def mvEqScalar (a : MVOf R) (x : R) : Bool := mvEq a (ofScalar x)
 
-/-- `MultiVector.__bool__`: `bool(self.data)` -/
-def mvBool (a : MV) : Bool := !a.isEmpty
+/-- `MultiVector.__hash__`: `hash(space) ^ XOR over items of (hash(bits) ^ hash(coeff))`, for any
+    hash functions `hb`, `hc` of bitmaps and coefficients (`Nat` XOR stands for Python's `^` on
+    hash values) -/
+def mvHash (hspace : Nat) (hb : Nat → Nat) (hc : R → Nat) (a : MVOf R) : Nat :=
+  a.foldl (fun r (bits, coeff) => r ^^^ (hb bits ^^^ hc coeff)) hspace
 
-/-- the documented reading of `__bool__` ("has any blade with non-zero coefficient") negated -/
-def mvIsZero (a : MV) : Bool := !mvBool a
+/-- the actual inverse `MultiVector.inv` returns, for coefficient types with `/`:
+    `{bits: coeff / nsqr}`; the three Python exceptions as in `InvResult` -/
+def mvInvDiv [Div R] (g : Nat → R) (dims : Nat) (a : MVOf R) : Except (InvResult R) (MVOf R) :=
+  match inv g dims a with
+  | .ok numer denom => .ok (numer.map fun (bits, coeff) => (bits, coeff / denom))
+  | e => .error e
+
+/-- `MultiVector.__truediv__`: `self * other.inv()` -/
+def mvTrueDiv [Div R] (g : Nat → R) (dims : Nat) (a b : MVOf R) : Except (InvResult R) (MVOf R) :=
+  match mvInvDiv g dims b with
+  | .ok bi => .ok (mvMul g a bi)
+  | .error e => .error e
+
+end MVDec
 
 end PV.GA
